@@ -29,6 +29,7 @@ import (
 	"os"
 	"os/exec"
 	"path/filepath"
+	"runtime"
 	"strings"
 	"time"
 
@@ -88,6 +89,10 @@ func genCfg(r *gen.Rng) asm.Config {
 	cfg.GetAttempts, cfg.PutAttempts = 16, 64
 	cfg.Factory = "raw"
 	cfg.Label = "c03"
+	// The retry interval outlasts the epoch interval (production: 10 s vs a
+	// configurable interval), so that a complete commit fits into one retry
+	// sleep of the other state writer.
+	cfg.MinEpoch, cfg.Retry = 3*time.Second, 7*time.Second
 	return cfg
 }
 
@@ -302,6 +307,64 @@ func (e *env) workload(n int) {
 	}
 }
 
+// failedReleaseOverlappedByCommit: the state write of the block-release
+// goroutine fails once (transient); while that goroutine sleeps for its retry
+// interval, uploads are acknowledged and the put goroutine performs one
+// complete commit; then the retry runs. What the retry writes must not be
+// older than what the commit wrote.
+func (e *env) failedReleaseOverlappedByCommit() {
+	s := e.s
+	block := int(e.cfg.BlockBytes())
+	for i := 0; i < 3*e.cfg.BlockCount() && !s.ReleasePending(); i++ {
+		e.put(e.newObj(e.r.Range(block/2, block)), nil)
+	}
+	if !s.ReleasePending() {
+		return
+	}
+	if e.r.Bool() {
+		s.State.SetFail(1, status.Error(codes.Internal, "injected state write failure"))
+	} else {
+		kind := []string{"create", "fwrite", "fsync", "close", "rename", "dirsync"}[e.r.Intn(6)]
+		s.M.Dir.AddFaultNext(kind, 1, fmt.Errorf("injected %s failure", kind))
+	}
+	rel := s.StartReleaseRound()
+	sleeping := false
+	for spin := 0; spin < 2000000 && !rel.Finished(); spin++ {
+		if _, ok := s.M.Clock.NextFire(); ok {
+			sleeping = true
+			break
+		}
+		runtime.Gosched()
+	}
+	if !sleeping {
+		rel.WaitRelease()
+		return
+	}
+	run.Settle(10 * time.Second)
+	for i := e.r.Range(1, 3); i > 0; i-- {
+		e.put(e.newObj(e.r.Range(1, block/3)), nil)
+	}
+	if s.PutPending() {
+		t := s.StartPutRound(e.ctx)
+		run.Settle(10 * time.Second)
+		s.M.Clock.Advance(e.cfg.MinEpoch) // the epoch timer, not the retry timer
+		for spin := 0; spin < 200 && !t.Finished(); spin++ {
+			run.Settle(10 * time.Second)
+			if _, ok := s.M.Clock.NextFire(); !ok {
+				continue
+			}
+			time.Sleep(50 * time.Microsecond)
+		}
+		if t.Finished() {
+			e.w.Count("commits_during_a_state_write_retry_sleep", 1)
+		} else {
+			t.Wait()
+		}
+	}
+	rel.WaitRelease()
+	s.M.Dir.ClearFaults()
+}
+
 func okRefusal(err error) bool {
 	switch status.Code(err) {
 	case codes.Unavailable, codes.InvalidArgument:
@@ -325,6 +388,9 @@ func scenario(ctx context.Context, w *run.Worker, c *run.Case, shutdown bool) {
 		w.Sample(map[string]any{"scenario": map[bool]string{true: "shutdown", false: "commit"}[shutdown], "config": cfg.String()})
 	}
 	e.workload(r.Range(5, 40))
+	if r.Chance(1, 3) {
+		e.failedReleaseOverlappedByCommit()
+	}
 	if shutdown {
 		e.shutdownScenario()
 	} else {
